@@ -20,9 +20,9 @@ def PcInv (p : Params) (s : St) (fs : FS) : Prop :=
   | .arm _ => Hidden fs ∧ s.written = [] ∧ s.forked = true
   | .opening _ => Hidden fs ∧ s.written = [] ∧ s.forked = true
   | .nap _ => Hidden fs ∧ s.written = [] ∧ s.forked = true
-  | .copy => Hidden fs ∧ fs.cur = s.written ∧ s.forked = true
-  | .closing => Hidden fs ∧ Complete p fs ∧ s.forked = true
-  | .linking => Hidden fs ∧ Complete p fs ∧ s.forked = true
+  | .copy => Hidden fs ∧ fs.cur = s.written ∧ s.forked = true ∧ fs.tmpName = true
+  | .closing => Hidden fs ∧ Complete p fs ∧ s.forked = true ∧ fs.tmpName = true
+  | .linking => Hidden fs ∧ Complete p fs ∧ s.forked = true ∧ fs.tmpName = true
   | .unlinkOk => fs.newName = true ∧ s.forked = true
   | .failUnlink c => c ≠ 0 ∧ (fs.newName = true → s.interrupted = true) ∧ s.forked = true
   | .dying c => (c = 0 → fs.newName = true) ∧ (c ≠ 0 → fs.newName = true → s.interrupted = true) ∧ s.forked = true
@@ -303,5 +303,110 @@ theorem accept_prefix (p : Params) (evs : List Ev) (k : Nat) : ∀ (s s' : St), 
         simp only [hacc] at h
         obtain ⟨s'', hs⟩ := ih k s1 s' h
         exact ⟨s'', by simp [acceptAll, hacc, hs]⟩
+
+
+/-! ### how the `link` is reached -/
+
+theorem acceptAll_append (p : Params) (a b : List Ev) : ∀ (s : St),
+    acceptAll p s (a ++ b) = (acceptAll p s a).bind (fun s' => acceptAll p s' b) := by
+  induction a with
+  | nil => intro s; simp [acceptAll]
+  | cons e es ih =>
+    intro s
+    simp only [List.cons_append, acceptAll]
+    cases accept p s e with
+    | none => simp
+    | some s1 => simpa using ih s1
+
+/-- the control point `linking` is entered only by a successful `close` from `closing` -/
+theorem enter_linking (p : Params) (s s' : St) (e : Ev) (h : accept p s e = some s') (hl : s'.pc = .linking) :
+    e = .close true ∧ s.pc = .closing := by
+  cases e with
+  | close ok =>
+    simp only [accept] at h; split at h
+    · rename_i hp; cases h; cases ok
+      · simp at hl
+      · exact ⟨rfl, hp⟩
+    · cases h
+  | fork => simp only [accept] at h; split at h <;> cases h; simp at hl
+  | alarm n =>
+    simp only [accept] at h; split at h
+    · split at h <;> cases h; simp at hl
+    · cases h
+  | openExcl ok ex =>
+    simp only [accept] at h; split at h
+    · cases ok <;> cases ex <;> simp at h
+      all_goals first | (subst h; simp at hl) | (split at h <;> cases h <;> simp at hl)
+    · cases h
+  | sleep n =>
+    simp only [accept] at h; split at h
+    · split at h <;> cases h; simp at hl
+    · cases h
+  | read n => simp only [accept] at h; split at h <;> cases h; rename_i hp; simp [hp.1] at hl
+  | readErr intr =>
+    simp only [accept] at h; split at h
+    · rename_i hp; cases intr <;> simp at h <;> subst h <;> simp [hp.1] at hl
+    · cases h
+  | write bs => simp only [accept] at h; split at h <;> cases h; rename_i hp; simp [hp.1] at hl
+  | writeErr intr =>
+    simp only [accept] at h; split at h
+    · rename_i hp; cases intr <;> simp at h <;> subst h <;> simp [hp] at hl
+    · cases h
+  | fsync ok => simp only [accept] at h; split at h <;> cases h; cases ok <;> simp at hl
+  | link ok => simp only [accept] at h; split at h <;> cases h; cases ok <;> simp at hl
+  | unlinkTmp ok => simp only [accept] at h; split at h <;> cases h <;> simp at hl
+  | sigAlarm => simp only [accept] at h; split at h <;> cases h; simp at hl
+  | childExit c =>
+    simp only [accept] at h; split at h
+    · split at h <;> cases h; simp at hl
+    · split at h <;> cases h; simp at hl
+    · cases h
+  | childKilled => simp only [accept] at h; split at h <;> cases h; simp at hl
+  | parentExit c =>
+    simp only [accept] at h; split at h
+    · split at h <;> cases h; simp at hl
+    · split at h <;> cases h; simp at hl
+    · split at h <;> cases h; simp at hl
+    · cases h
+
+/-- **Reachability of the link.**  In any run whose last event is a successful `link`, the events before it
+leave the file of this delivery named in tmp/, not yet in new/, holding exactly the content — i.e. the writes since the
+last successful `open_excl` concatenate to Return-Path + Delivered-To + message — with a successful `fsync` after the last
+write, and the event just before the `link` is the successful `close`. -/
+theorem link_reach (p : Params) (evs : List Ev) (s : St) (h : acceptAll p {} (evs ++ [.link true]) = some s) :
+    (applyAll {} evs).tmpName = true ∧ (applyAll {} evs).newName = false ∧ (applyAll {} evs).cur = p.content ∧
+    (applyAll {} evs).synced = true ∧ evs.getLast? = some (.close true) := by
+  rw [acceptAll_append] at h
+  cases h1 : acceptAll p {} evs with
+  | none => simp [h1] at h
+  | some s1 =>
+    simp only [h1, Option.bind_some, acceptAll] at h
+    have hpc : s1.pc = .linking := by
+      cases hl : accept p s1 (.link true) with
+      | none => simp [hl] at h
+      | some s2 =>
+        simp only [accept] at hl; split at hl
+        · assumption
+        · cases hl
+    have hinv := run_inv p evs {} s1 {} (inv_init p) h1
+    have hp := hinv.2
+    simp [PcInv, hpc, Hidden, Complete] at hp
+    refine ⟨hp.2.2.2, hp.1, hp.2.1.1, hp.2.1.2, ?_⟩
+    rcases List.eq_nil_or_concat evs with he | ⟨init, e, he⟩
+    · subst he; simp [acceptAll] at h1; subst h1; simp at hpc
+    · rw [List.concat_eq_append] at he
+      subst he
+      rw [acceptAll_append] at h1
+      cases h0 : acceptAll p {} init with
+      | none => simp [h0] at h1
+      | some s0 =>
+        simp only [h0, Option.bind_some, acceptAll] at h1
+        cases ha : accept p s0 e with
+        | none => simp [ha] at h1
+        | some s1' =>
+          simp only [ha] at h1
+          cases h1
+          rw [(enter_linking p s0 s1 e ha hpc).1]
+          simp
 
 end Nq.Lemmas.LD.Md
